@@ -104,6 +104,7 @@ type Exec struct {
 	MaxSymLen int
 	CaptureMark int
 	FeasCalls int
+	Tags      map[int]string // harness-given names of objects (vTag)
 	PruneIf   bool // ask the solver at every symbolic branch whether each side is feasible
 	Deadline  time.Time
 	MaxTerms  int
@@ -153,7 +154,7 @@ func NewExec(prog *ssa.Program, pkg *ssa.Package, mode string) *Exec {
 		inputBy: map[string]*Term{}, axiomSeen: map[string]bool{}, ufSites: map[string][]*Term{},
 		UFUsed: map[string]int{}, Known: map[string]bool{}, Unwind: 40, MaxTerms: 3000000,
 		finfo: map[*ssa.Function]*FuncInfo{}, FuncsSeen: map[string]string{}, Stubs: map[string]int{},
-		FloatSites: map[string]string{}, LemmaPoints: map[string][]float64{}}
+		FloatSites: map[string]string{}, LemmaPoints: map[string][]float64{}, Tags: map[int]string{}}
 	switch mode {
 	case "R", "":
 		e.F = &ArithR{S: s}
@@ -582,10 +583,11 @@ func (e *Exec) info(fn *ssa.Function) *FuncInfo {
 // ---- function execution
 
 type frame struct {
-	fn   *ssa.Function
-	fi   *FuncInfo
-	pend map[*ssa.BasicBlock][]*State
-	rets []retRec
+	fn      *ssa.Function
+	fi      *FuncInfo
+	pend    map[*ssa.BasicBlock][]*State
+	rets    []retRec
+	symExit map[*Loop]bool // loops left (or continued) under a symbolic condition in the current iteration
 }
 
 type retRec struct {
@@ -690,9 +692,11 @@ func (e *Exec) runLoop(fr *frame, L *Loop) {
 			hg := e.S.Or(gs...)
 			if iter == 0 {
 				entryG = hg
-			} else if hg != entryG {
+			} else if hg != entryG && fr.symExit[L] {
+				// only iterations whose continuation was decided symbolically count against the unwind bound
 				symIters++
 			}
+			delete(fr.symExit, L)
 			if symIters > e.Unwind || iter > 200000 {
 				// unwinding obligation: continuing must be infeasible
 				e.Unwinds = append(e.Unwinds, SideObl{Kind: "unwind", Guard: hg, Cond: e.S.False,
@@ -819,6 +823,15 @@ func (e *Exec) execBlock(fr *frame, b *ssa.BasicBlock, st *State) {
 			} else if ct.IsFalse() {
 				e.transfer(fr, st, b, b.Succs[1], occ1)
 			} else {
+				// symbolic branch: note every enclosing loop for which it decides leaving vs staying
+				for l := fr.fi.LoopOf[b]; l != nil && l.Header != nil; l = l.Parent {
+					if l.Blocks[b.Succs[0]] != l.Blocks[b.Succs[1]] {
+						if fr.symExit == nil {
+							fr.symExit = map[*Loop]bool{}
+						}
+						fr.symExit[l] = true
+					}
+				}
 				s2 := st.fork()
 				st.G = e.S.And(st.G, ct)
 				s2.G = e.S.And(s2.G, e.S.Not(ct))
